@@ -61,12 +61,15 @@ type Sched struct {
 	KeepTrace    bool
 	timers       []*timerRec
 	NoAdvanceAlt bool // never offer "advance time while threads are runnable"
+	Leaked       int  // threads left blocked in a real operation when the execution ended
 }
 
 // S is the active scheduler; nil = pass-through (free-running) mode.
 var S *Sched
 
-func graveyard() { select {} }
+// graveyard ends a goroutine that belongs to a finished execution: deferred calls run (they
+// only touch objects of that execution), then the goroutine and its stack are freed.
+func graveyard() { runtime.Goexit() }
 
 func (s *Sched) self() *Thread {
 	g := getg()
@@ -269,8 +272,52 @@ func (s *Sched) Run(body func()) {
 		s.Steps++
 		t.wake <- struct{}{}
 	}
-	// retire: remaining threads go to the graveyard when they next touch the shim
+	// drain: let the remaining runnable threads run on (default order, no choices, no time
+	// advance) so that goroutines of a cleanly stopped system exit instead of leaking
+	if !s.Deadlock && !s.Cut && len(s.Panics) == 0 {
+		for extra := 0; extra < 3000; extra++ {
+			synctest.Wait()
+			s.mu.Lock()
+			s.granted = nil
+			var next *Thread
+			for _, t := range s.threads {
+				if t.state == tParked {
+					next = t
+					break
+				}
+			}
+			if next != nil {
+				next.state = tRunning
+				s.granted = next
+			}
+			s.mu.Unlock()
+			if next == nil {
+				break
+			}
+			next.wake <- struct{}{}
+		}
+		synctest.Wait()
+	}
+	// retire: threads still parked are woken and leave through the graveyard; threads blocked in
+	// a real operation stay blocked (Leaked counts them)
 	S = nil
+	s.mu.Lock()
+	var parked []*Thread
+	for _, t := range s.threads {
+		switch t.state {
+		case tParked, tWaiting:
+			parked = append(parked, t)
+		case tRunning:
+			s.Leaked++
+		}
+	}
+	s.mu.Unlock()
+	for _, t := range parked {
+		select {
+		case t.wake <- struct{}{}:
+		default:
+		}
+	}
 }
 
 // Dump describes every thread (for deadlock reports).
